@@ -52,6 +52,17 @@ def _g():
     return P.GammaPrior(2.0, 3.0)
 
 
+class FeatureScaler(gpytorch.Module):
+    """gpytorch.utils.grid.ScaleToBounds (a plain torch module with learned buffers) inside a gpytorch module, as in deep kernel models."""
+
+    def __init__(self, scaler):
+        super().__init__()
+        self.scaler = scaler
+
+    def forward(self, x):
+        return self.scaler(x)
+
+
 EXTRA = {
     "CylindricalKernel_priors": lambda: K.CylindricalKernel(3, K.MaternKernel(nu=2.5), alpha_prior=_g(), beta_prior=_g(), angular_weights_prior=_g()),
     "ArcKernel_priors": lambda: K.ArcKernel(K.MaternKernel(nu=2.5), angle_prior=P.GammaPrior(0.5, 1), radius_prior=P.GammaPrior(3, 2), ard_num_dims=2),
@@ -82,6 +93,8 @@ EXTRA = {
     "GaussianLikelihood_lognormal": lambda: L.GaussianLikelihood(noise_prior=P.LogNormalPrior(-1.0, 0.5), noise_constraint=C.GreaterThan(1e-3)),
     "MultitaskGaussianLikelihood_prior": lambda: L.MultitaskGaussianLikelihood(num_tasks=2, rank=1, noise_prior=_g()),
     "BernoulliLikelihood": lambda: L.BernoulliLikelihood(),
+    "ScaleToBounds_int_bounds": lambda: FeatureScaler(gpytorch.utils.grid.ScaleToBounds(-1, 1)),
+    "ScaleToBounds": lambda: FeatureScaler(gpytorch.utils.grid.ScaleToBounds(-1.0, 1.0)),
     # plain GridKernel; variant 1 = another grid of the same size (the grid buffers travel in the state_dict)
     "GridKernel": lambda v=0: K.GridKernel(K.RBFKernel(), grid=[torch.linspace(0, 1, 4) * (1.0 + 0.6 * v) + 0.3 * v, torch.linspace(0, 1, 4) ** (1 + v)]),
     "GridKernel_matern": lambda v=0: K.ScaleKernel(K.GridKernel(K.MaternKernel(nu=1.5), grid=[torch.linspace(-1, 1, 5) * (1.0 + 0.4 * v)])),
@@ -209,6 +222,10 @@ def observe(module, seed, grad=False):
         elif isinstance(module, Mn.Mean):
             x1, _ = probe_inputs(seed, dtype, 2)
             out["mean"] = module(x1).detach()
+        elif isinstance(module, FeatureScaler):
+            fdt = next((b.dtype for b in module.buffers() if b.is_floating_point()), torch.float32)
+            x1, _ = probe_inputs(seed, fdt, 2)
+            out["scaled"] = module(x1 * 7.0 - 3.0).detach()  # in training mode this also learns min / max (buffers)
     return out
 
 
